@@ -94,6 +94,36 @@ CLAIMED = {
     design_ref="DESIGN.md section 6 (C14), section 10",
     note="The specification is a generator/classifier here, not a semantic oracle: exploration level. Stack overflow by nesting beyond the documented bound (64) is out of scope.",
     technique="TLC-generated mutation / token-soup / nesting cases replayed on the real parser + trace validation of random Unicode inputs"),
+ "C01": dict(
+    category="model_checking",
+    text="Extract.tla transcribes the documented extraction rules (MatchPattern, ExtractColumn with typed conversion, BOOLEAN = group existence, arrays and TIMESTAMP assembled position by position with calendar validation, TRIM, DEFAULT, the NOT NULL cut, admission) over abstract lines (pattern no-match / per-group absent or text); TLC checks ColumnsIndependent and AdmissionRule on every case of the menus and emits the predicted row. Each case is rendered to CREATE TABLE text (parsed by the real parser; built through the API when the grammar cannot express the modifier combination) and a real line whose capture groups are cross-checked against the regex crate, executed with SELECT * and compared value by value.",
+    design_ref="DESIGN.md section 6 (C01)",
+    note="One 7-group capture pattern, one split pattern and one inline pattern stand for all patterns; the regex crate itself is trusted. Outcomes the property leaves open (REAL spellings beyond plain decimals, month group absent, leap-second encodings) are only checked for totality.",
+    technique="TLA+ transcription of the extraction rules, enumerated by TLC (state graph = test suite) and replayed through parser + engine"),
+ "C02": dict(
+    category="model_checking",
+    text="Extract.tla's JSON part: documents as trees, Walk(path), conversion per declared type without coercion, CONVERT, DEFAULT only for an absent path or a non-JSON line, NULL for another type; TLC enumerates 18 leaf kinds x 8 types x modifiers, paths of length 1-3 over documents with missing / wrong-kind intermediate nodes and duplicate keys, and 5 kinds of non-JSON lines, each with a regex column on the raw line; every case is rendered to JSON text and CREATE TABLE text and executed on the real code.",
+    design_ref="DESIGN.md section 6 (C02)",
+    note="serde_json is trusted as the JSON parser; duplicate keys and numbers beyond i64 read as REAL are left open (totality only).",
+    technique="TLA+ transcription of the JSON-path rules, enumerated by TLC and replayed through parser + engine"),
+ "C09": dict(
+    category="exploration",
+    text="Totality is decided by the outcome class of every execution: the bounded models (Engine.tla BoundaryMenu and aggregate menus, Printer.tla, Extract.tla) predict value / error / unknown for operators, functions, subscripts, casts, aggregates, printing and extraction on 64-bit extremes, zero divisors, NaN / infinities / -0.0, NULL-only groups and out-of-range date parts, and a panic or a wrapped value where they predict otherwise is a mismatch; seeded drivers add arbitrary bytes through FileExecutor in three formats and the CLI as a child process under six TZ settings with timestamps in DST gaps / overlaps, whose recorded outcome classes TLC validates against Trace_Total.tla (only Completed / Reported exist).",
+    design_ref="DESIGN.md section 6 (C09), section 10",
+    note="For arbitrary bytes and TZ runs the specification is a classifier (outcome class), not a semantic oracle: exploration level. Harness built with overflow checks on; hangs via watchdog.",
+    technique="TLC-enumerated boundary cases replayed on the real code + trace validation of outcome classes for byte soups and TZ child-process runs"),
+ "C15": dict(
+    category="model_checking",
+    text="PermLaw (for every permutation of every enumerated input the table of an order-insensitive aggregate statement is the same) and CombineLaw (the table over x o y is the key-wise combination of the tables over x and y: counts and sums add, minima and maxima combine, groups union) are TLC invariants over Sem.tla; BatchRefinesSem ties the operational engine with its running state to Sem; every ordering of every input is executed on the real code. On the repository's corpora seeded shuffles and cuts are run on the real code and Trace_Laws.tla checks Perm and Combine between the recorded outputs.",
+    design_ref="DESIGN.md section 6 (C15)",
+    note="Aggregates COUNT, SUM, MIN, MAX, AVG, STDDEV, VARIANCE, PERCENTILE, BOOL_AND, BOOL_OR, COUNT(DISTINCT) over INT / TEXT / BOOLEAN arguments; REAL sums only when exactly representable.",
+    technique="TLA+ model checking (TLC) of permutation / combination laws + replay of all orderings + relational trace validation on corpora"),
+ "C18": dict(
+    category="model_checking",
+    text="Engine.tla is checked to be deterministic (TLC: every state has at most one successor), so the as-built model assigns one output to each (definition, statement, input); every replayed behaviour must equal it (rows in input order, groups in key order, * in definition order, partners in joined-file order). Repeated executions inside one process (Trace_Laws Repeat) and four executions of the CLI in fresh processes (fresh hash seeds) with unrelated tables defined before / after the queried one must print identical output.",
+    design_ref="DESIGN.md section 6 (C18)",
+    note="The code's hash containers are only used for lookups; the model therefore has no order choice to range over, which is exactly what the determinism check establishes for the model and the replays for the code. now() excluded.",
+    technique="TLC determinism check of Engine.tla + replay against the unique output + fresh-process CLI runs validated as a trace"),
 }
 
 TITLES = {}
